@@ -2,7 +2,7 @@
 //! hydration engine (harness/native): the same `build` runs against whichever back end is compiled in.
 use crate::util::*;
 use sycamore::prelude::*;
-use sycamore::web::{custom_element, GlobalAttributes, GlobalProps, NoHydrate, Show, ShowProps};
+use sycamore::web::{custom_element, GlobalAttributes, GlobalProps, NoHydrate, NoSsr, Show, ShowProps};
 
 #[derive(Clone, Debug)]
 pub enum AttrV {
@@ -29,6 +29,8 @@ pub enum VD {
     NoHydrate(Vec<VD>),
     /// `Keyed(list = LISTS[sig % 6], key = identity, view = li { "k<key>" })`
     Keyed(usize),
+    /// `NoSsr { children }`: a `<no-ssr>` placeholder on the server, the children on the client (after mount)
+    NoSsr(Vec<VD>),
 }
 
 pub const KEYED_LISTS: &[&[u32]] = &[&[], &[1], &[1, 2], &[2, 1], &[1, 2, 3], &[3, 1]];
@@ -61,6 +63,7 @@ pub fn sx(v: &VD) -> String {
         VD::Frag(cs) => format!("(frag{})", l(cs)),
         VD::NoHydrate(cs) => format!("(nohydrate{})", l(cs)),
         VD::Keyed(g) => format!("(keyed {g})"),
+        VD::NoSsr(cs) => format!("(nossr{})", l(cs)),
     }
 }
 
@@ -106,6 +109,7 @@ pub fn rd(s: &Sx) -> Option<VD> {
         "show" => VD::Show(num(&l[1])?, l[2..].iter().map(rd).collect::<Option<_>>()?),
         "frag" => VD::Frag(l[1..].iter().map(rd).collect::<Option<_>>()?),
         "keyed" => VD::Keyed(num(&l[1])?),
+        "nossr" => VD::NoSsr(l[1..].iter().map(rd).collect::<Option<_>>()?),
         "nohydrate" => VD::NoHydrate(l[1..].iter().map(rd).collect::<Option<_>>()?),
         _ => return None,
     })
@@ -160,6 +164,10 @@ pub fn build(v: &VD, sigs: &[Signal<u32>]) -> View {
             sycamore::rt::component_scope(move || Show(ShowProps::builder().when(move || s.get() % 2 == 1).children(Children::new(move || View::from(cs.iter().map(|c| build(c, &sigs)).collect::<Vec<View>>()))).build()))
         }
         VD::Frag(cs) => View::from(cs.iter().map(|c| build(c, sigs)).collect::<Vec<View>>()),
+        VD::NoSsr(cs) => {
+            let (cs, sigs) = (cs.clone(), sigs.to_vec());
+            view! { NoSsr(children=Children::new(move || View::from(cs.iter().map(|c| build(c, &sigs)).collect::<Vec<View>>()))) }
+        }
         VD::Keyed(g) => {
             let s = sigs[*g];
             let list = create_memo(move || keyed_list(s.get()));
@@ -191,7 +199,7 @@ pub fn freeze(v: &VD, store: &[u32]) -> VD {
         VD::DText(g) => VD::Text(dtext_str(store[*g])),
         VD::DView(g, alts) | VD::DView0(g, alts) => if alts.is_empty() { VD::Frag(vec![]) } else { VD::Frag(fl(&alts[store[*g] as usize % alts.len()])) },
         VD::Show(g, cs) => if store[*g] % 2 == 1 { VD::Frag(fl(cs)) } else { VD::Frag(vec![]) },
-        VD::Frag(cs) | VD::NoHydrate(cs) => VD::Frag(fl(cs)),
+        VD::Frag(cs) | VD::NoHydrate(cs) | VD::NoSsr(cs) => VD::Frag(fl(cs)),
         VD::Keyed(g) => VD::Frag(keyed_list(store[*g]).iter().map(|k| VD::El("li".into(), vec![], vec![VD::Text(format!("k{k}"))])).collect()),
     }
 }
@@ -204,6 +212,7 @@ pub fn after_hydration(v: &VD, store0: &[u32]) -> VD {
         VD::DView0(g, alts) => VD::DView0(*g, alts.iter().map(al).collect()),
         VD::Show(g, cs) => VD::Show(*g, al(cs)),
         VD::Frag(cs) => VD::Frag(al(cs)),
+        VD::NoSsr(cs) => VD::NoSsr(al(cs)),
         VD::NoHydrate(cs) => VD::Frag(cs.iter().map(|c| freeze(c, store0)).collect()),
         other => other.clone(),
     }
@@ -249,7 +258,7 @@ pub fn gen(rng: &mut Rng, depth: usize, nsig: usize, budget: &mut usize) -> VD {
 /// normally later, and "frozen at the initial store" is not what the document shows any more)
 pub fn nohydrate_in_dynamic(v: &VD, inside: bool) -> bool {
     match v {
-        VD::El(_, _, cs) | VD::Frag(cs) => cs.iter().any(|c| nohydrate_in_dynamic(c, inside)),
+        VD::El(_, _, cs) | VD::Frag(cs) | VD::NoSsr(cs) => cs.iter().any(|c| nohydrate_in_dynamic(c, inside)),
         VD::DView(_, alts) | VD::DView0(_, alts) => alts.iter().any(|a| a.iter().any(|c| nohydrate_in_dynamic(c, true))),
         VD::Show(_, cs) => cs.iter().any(|c| nohydrate_in_dynamic(c, true)),
         VD::NoHydrate(cs) => inside || cs.iter().any(|c| nohydrate_in_dynamic(c, inside)),
